@@ -134,7 +134,7 @@ func (m *emodel) write(u wunit, data [][]byte) {
 		// parameter detection happens first, on whatever the unit carries
 		carries := false
 		switch t.Kind {
-		case "h264", "h264b", "h264k", "h265", "h265b":
+		case "h264", "h264b", "h264k", "h264bk", "h265", "h265b":
 			carries = u.Params != 0
 		case "av1", "vp9":
 			carries = u.RA // sequence header / key-frame header always describe the parameters
@@ -161,7 +161,7 @@ func (m *emodel) write(u wunit, data [][]byte) {
 			m.seenRA[u.Track] = true
 		}
 		dts := u.DTS
-		if t.Kind == "h264b" {
+		if isH264B(t.Kind) {
 			if m.ext[u.Track] == nil {
 				m.ext[u.Track] = &h264.DTSExtractor{}
 				m.ext[u.Track].Initialize()
@@ -219,7 +219,7 @@ func (m *emodel) dtsUnderivable(u wunit, data [][]byte) bool {
 		_, err := ext.Extract(data, u.DTS)
 		return err != nil
 	}
-	if m.cfg.Tracks[u.Track].Kind != "h264b" || (!m.seenRA[u.Track] && !u.RA) {
+	if !isH264B(m.cfg.Tracks[u.Track].Kind) || (!m.seenRA[u.Track] && !u.RA) {
 		return false
 	}
 	ext := m.ext[u.Track]
